@@ -475,6 +475,19 @@ def eval_recipe(rc: dict, workdir: str, rng: random.Random, routes: dict | None 
             finally:
                 if os.path.exists(p):
                     os.unlink(p)
+            # the same selection in memory: MazeDataset.load(ds.serialize()) — the property's first observation point
+            if not bad:
+                try:
+                    ds_m = materialise(rc); snap_m = snapshot(ds_m)
+                    data = ds_m.serialize(); fmt_m = data.get("__format__")
+                    rd_m = MazeDataset.load(data)
+                    bad = [f"in memory (load(serialize())): {b}" for b in oracle(snap_m, rd_m, (not pre_collected) and fmt_m != "MazeDataset", ds_m)]
+                    if (fmt_m != "MazeDataset") != want_minimal:
+                        bad.append(f"threshold {t} with {n} mazes: serialize() chose format {fmt_m!r}; the rule is: minimal format iff threshold is not None and len >= threshold")
+                    if fmt_m != row.get("fmt"):
+                        bad.append(f"serialize() chose format {fmt_m!r} but save() wrote {row.get('fmt')!r} under the same threshold {t}")
+                except Exception as e:
+                    bad = [f"MazeDataset.load(ds.serialize()) under threshold {t} raised {type(e).__name__}: {str(e)[:200]}"]
         inside = in_domain(rc, "minimal" if want_minimal else "full")
         R["cases"].append(((digest, "thr", t), inside and n > 0 and not bad))
         count(f"thr={'None' if t is None else t if t in (-1, 0, 1, 100) else 'len-1' if t == n - 1 else 'len' if t == n else 'len+1'}")
